@@ -1,7 +1,7 @@
 /-
 C02 (source tie) — the hand-written model of `CertifiedKey::wants_update`
 (`KM.CaK.CertKey.wantsUpdate`, Ca/Keys.lean) equals the definition that the translator `pure_fns`
-regenerates from `/repo/src/server/ca/keys.rs` on every run (`Generated/PureFns.lean`,
+regenerates from `/repo/src/server/ca/keys.rs` on every run (`Generated/PureFnsC02.lean`,
 `KM.Gen.CertifiedKey.wants_update`).
 
 `sync_idempotent`, `sync_converges_partial` and the key-sync lemmas (Props/C02.lean, Ca/LemmasKeySync.lean)
@@ -18,7 +18,7 @@ function (the obligation then reports broken), it cannot be proved equal.
 Difference that does not matter, bridged here: argument order, and the model reads the Booleans from
 its `Cert` record (`slash`, `seteq newRes cert.res`, `all`).
 -/
-import KrillModel.Generated.PureFns
+import KrillModel.Generated.PureFnsC02
 import KrillModel.Ca.Keys
 namespace KM.Props.C02Src
 open KM.CaK KM.Res
